@@ -5,7 +5,7 @@ package c13
 // array of {ranges: [[lo,hi]], value}, colors: object of strings, ...) never get a
 // value of the right shape that way. Here the default value of every structured option
 // (read from the live `options` object) is mutated one site at a time - every number
-// leaf to {-1, 256, 2^31}, every string leaf to {"", "a"}, every array emptied and its
+// leaf to {-1, 256, 2^16}, every string leaf to {"", "a"}, every array emptied and its
 // first element doubled, every object member dropped - and each mutated value is passed
 // alone and together with every boolean option that is off by default switched on
 // (color, verbose, unicode, ...: the code that consumes a structured option is often
@@ -72,7 +72,7 @@ func mutations(v any) []any {
 	var out []any
 	switch x := v.(type) {
 	case int, float64:
-		out = append(out, -1, 256, 2147483648)
+		out = append(out, -1, 256, 65536)
 	case string:
 		out = append(out, "", "a")
 	case []any:
